@@ -274,14 +274,19 @@ def classify(run, spec, beam, status, detail):
 
 
 def replay_known(run):
+    """Replay the stored input of every listed finding: a known one must still fail (else it is noted as not reproduced);
+    a fixed one must now pass (else the defect has returned: VIOLATION)."""
     for f in common.load_known_findings(PID):
-        if f.get("status") != "known":
-            continue
         st, detail = compare_case(f["replay"]["spec"], f["replay"]["beam"])
-        if st in ("mismatch", "nan_from_neighbour", "exception", "shape"):
-            run.known(f["what"])
-        else:
-            run.cov["known_findings_not_reproduced"].append(f["id"])
+        failing = st in ("mismatch", "nan_from_neighbour", "exception", "shape")
+        if f.get("status") == "known":
+            if failing:
+                run.known(f["what"])
+            else:
+                run.cov["known_findings_not_reproduced"].append(f["id"])
+        elif failing:
+            run.violation({"kind": "fixed_finding_returned", "finding": f["id"], "spec": f["replay"]["spec"], "beam": f["replay"]["beam"],
+                           "status": st, "detail": detail, "line": f.get("line")})
 
 
 # ---------------------------------------------------------------- regenerated inventory obligation
